@@ -24,7 +24,7 @@ const (
 // header is the common header shared by all node kinds.
 type header[T any] struct {
 	flags     uint16 // kind(4b) | unused(3b) | size(9b)
-	prefixLen uint16
+	prefixLen uint32
 	prefixP   *byte         // the compressed prefix, [0] is the key
 	watch     chan struct{} // watch channel that is closed when this node mutates
 }
@@ -40,14 +40,14 @@ func (n *header[T]) prefix() []byte {
 func (n *header[T]) isPrefixOf(key []byte) bool {
 	// This is essentially same as bytes.HasPrefix(key, this.prefix()), but slight bit
 	// faster as we don't need to construct the slice header for length comparison.
-	return uint16(len(key)) >= n.prefixLen && unsafe.String(n.prefixP, n.prefixLen) == string(key[:n.prefixLen])
+	return uint32(len(key)) >= n.prefixLen && unsafe.String(n.prefixP, n.prefixLen) == string(key[:n.prefixLen])
 }
 
 func (n *header[T]) setPrefix(p []byte) {
 	if len(p) > 0 {
 		n.prefixP = &p[0]
 	}
-	n.prefixLen = uint16(len(p))
+	n.prefixLen = uint32(len(p))
 }
 
 const kindMask = uint16(0b1111_000_00000000_0)
@@ -521,7 +521,7 @@ func (n *header[T]) remove(idx int) {
 type leaf[T any] struct {
 	header[T]
 	value  T
-	keyLen uint16
+	keyLen uint32
 	keyP   *byte // the full key
 }
 
@@ -534,7 +534,7 @@ func newLeaf[T any](o options, prefix, key []byte, value T) *leaf[T] {
 	if len(key) > 0 {
 		keyP = &key[0]
 	}
-	leaf := &leaf[T]{keyLen: uint16(len(key)), keyP: keyP, value: value}
+	leaf := &leaf[T]{keyLen: uint32(len(key)), keyP: keyP, value: value}
 	leaf.setPrefix(prefix)
 	leaf.setKind(nodeKindLeaf)
 	if !o.rootOnlyWatch() {
